@@ -52,8 +52,15 @@ Row(w, e, legacy, expose, text, withDebug) ==
 Rows == { Row(w, e, l, x, t, d) : w \in Writers, e \in Errors, l \in BOOLEAN, x \in BOOLEAN, t \in Texts, d \in BOOLEAN }
 
 ASSUME \A r \in Rows : ~r.debug_may_appear => (~r.debug_member /\ "G" \notin {r.desc[i] : i \in DOMAIN r.desc})   \* debug only when the operator enabled it
-ASSUME PrintT(<<"ROWS", Cardinality(Rows)>>)
+(* the SUCCESSFUL responses of the same writers carry tokens, codes, request URIs or token metadata: the same marking *)
+OkWriters == { <<"access", "tokens">>, <<"par", "request_uri">>, <<"device", "device and user code">>, <<"authorize_query", "code">>,
+               <<"authorize_fragment", "access token">>, <<"authorize_form_post", "code">>, <<"authorize_form_post_token", "access token">>,
+               <<"introspection_active", "token metadata">>, <<"introspection_inactive", "active=false">> }
+OkRows == { [writer |-> w[1], carries |-> w[2], no_store |-> TRUE] : w \in OkWriters }
+
+ASSUME PrintT(<<"ROWS", Cardinality(Rows), Cardinality(OkRows)>>)
 ASSUME JsonSerialize(IOEnv.VERIF_TABLE_ERRWIRE, SetToSeq(Rows))
+ASSUME JsonSerialize(IOEnv.VERIF_TABLE_OKWIRE, SetToSeq(OkRows))
 
 VARIABLE x
 Init == x = 0
